@@ -217,3 +217,70 @@ Proof.
   destruct (Z.eqb_spec (f64_exp_field b) 0) as [E0|E0];
   destruct (f64_sign_bit b); cbn; split; intros; intuition (try congruence; try lia).
 Qed.
+
+(* ---- the [synchronization] section ---- *)
+Definition good_threshold (st : step_threshold) : Prop :=
+  good_part (st_forward st) /\ good_part (st_backward st).
+Definition good_sync (c : sync_cfg) : Prop :=
+  good_threshold (c_single c) /\ good_threshold (c_startup c).
+
+Lemma default_sync_good : good_sync default_sync.
+Proof.
+  unfold good_sync, good_threshold, default_sync; cbn [c_single c_startup st_forward st_backward].
+  assert (G1 : good_number (f64_of_Z ConstConfigNum.CFG_DEFAULT_SINGLE_STEP_SECS))
+    by (repeat split; vm_compute; reflexivity).
+  assert (G2 : good_number (f64_of_Z ConstConfigNum.CFG_DEFAULT_STARTUP_BACKWARD_SECS))
+    by (repeat split; vm_compute; reflexivity).
+  repeat split; try (left; reflexivity); right; eauto.
+Qed.
+
+Lemma load_sync_good dbg fs : forall c c',
+  good_sync c -> load_sync dbg fs c = Ok c' -> good_sync c'.
+Proof.
+  induction fs as [|f r IH]; intros c c' G H.
+  - cbn in H. inversion H; subst; exact G.
+  - cbn [load_sync] in H. destruct G as [G1 G2]. destruct f as [v|v|v].
+    + destruct (step_threshold_of dbg v) as [st| |] eqn:S; cbn [res_bind] in H; try discriminate.
+      refine (IH _ _ _ H). split; [exact (step_threshold_good _ _ _ S) | exact G2].
+    + destruct (step_threshold_of dbg v) as [st| |] eqn:S; cbn [res_bind] in H; try discriminate.
+      refine (IH _ _ _ H). split; [exact G1 | exact (step_threshold_good _ _ _ S)].
+    + destruct (match v with TScalar s => accumulated_of dbg s | _ => Err EV_INVALID_TYPE end)
+        as [a| |]; cbn [res_bind] in H; try discriminate.
+      refine (IH _ _ _ H). split; [exact G1 | exact G2].
+Qed.
+
+Lemma load_sync_no_panic dbg fs : forall c p, load_sync dbg fs c <> Panic p.
+Proof.
+  induction fs as [|f r IH]; intros c p; cbn [load_sync]; [discriminate|].
+  destruct f as [v|v|v].
+  - destruct (step_threshold_of dbg v) as [st| |] eqn:S; cbn [res_bind]; try discriminate.
+    + apply IH.
+    + exfalso. exact (step_threshold_no_panic _ _ _ S).
+  - destruct (step_threshold_of dbg v) as [st| |] eqn:S; cbn [res_bind]; try discriminate.
+    + apply IH.
+    + exfalso. exact (step_threshold_no_panic _ _ _ S).
+  - destruct v as [s|es|]; cbn [res_bind]; try discriminate.
+    destruct (accumulated_of dbg s) as [a| |] eqn:A; cbn [res_bind]; try discriminate.
+    + apply IH.
+    + exfalso. exact (accumulated_no_panic _ _ _ A).
+Qed.
+
+Lemma loaded_section_good debug fs c :
+  load_sync debug fs default_sync = Ok c ->
+  good_threshold (c_single c) /\ good_threshold (c_startup c).
+Proof. exact (load_sync_good debug fs default_sync c default_sync_good). Qed.
+
+Lemma no_crash_all debug :
+  (forall v p, step_threshold_of debug v <> Panic p) /\
+  (forall v p, threshold_part debug v <> Panic p) /\
+  (forall s p, duration_of debug s <> Panic p) /\
+  (forall s p, accumulated_of debug s <> Panic p) /\
+  (forall fs c p, load_sync debug fs c <> Panic p).
+Proof.
+  repeat split; intros.
+  - apply step_threshold_no_panic.
+  - apply threshold_part_no_panic.
+  - apply duration_no_panic.
+  - apply accumulated_no_panic.
+  - apply load_sync_no_panic.
+Qed.
